@@ -146,7 +146,7 @@ PROPERTIES = {
                  "programs <= 7 events EVERY composition into <= 3 n-event steps and every until-cut below / at / above every timestamp (single, pairs, mixed "
                  "with n-steps), for larger ones random schedules, with and without external add_event while paused (at sim_time, between, at and after the "
                  "next event). Oracle: per-step counts (exactly n or all; exactly those <= t), paused sim_time / remaining / dispatched against an exact "
-                 "reference model, concatenated trace == uninterrupted trace == model trace. The same driver also runs against des built without the cqueue feature (BinaryHeap event set; stage heap-backend, both tiers; the order among equal timestamps is then taken from the observed run). Non-trivial = a step that dispatched something and left "
+                 "reference model, concatenated trace == uninterrupted trace == model trace. Every 25 programs the net-level injection probe of C02 (add_message_onto / handle_message_on before the run and on a runtime paused by an until-step). The same driver also runs against des built without the cqueue feature (BinaryHeap event set; stage heap-backend, both tiers; the order among equal timestamps is then taken from the observed run). Non-trivial = a step that dispatched something and left "
                  "something pending; distinct = hash of (program, schedule)."),
         "exhaustive_part": "all n-event compositions (<= 3 cuts) and all until-cuts around every timestamp for programs of <= 7 events",
         "assumptions": ["dispatch_events_until is only called with times >= the paused time"],
@@ -156,7 +156,7 @@ PROPERTIES = {
                    args={"quick": ["cases=6000"], "thorough": ["cases=100000"]}),
         ],
         "floor": {
-            "quick": {"heap_stepped_executions": 100000, "stepped_executions": 500000, "cuts_inside_a_tie_group": 100000, "external_adds_while_paused": 50000,
+            "quick": {"heap_stepped_executions": 100000, "net_injection_probes": 1000, "stepped_executions": 500000, "cuts_inside_a_tie_group": 100000, "external_adds_while_paused": 50000,
                       "programs_with_exhaustive_step_schedules": 5000},
             "thorough": {"stepped_executions": 10000000, "cuts_inside_a_tie_group": 2000000, "external_adds_while_paused": 1000000,
                          "programs_with_exhaustive_step_schedules": 100000, "heap_stepped_executions": 1000000},
